@@ -37,7 +37,8 @@ m.write('C09', 'A session with four conforming clients always runs to completion
  (E, 'ex_passed_out_completes', 'C09_example_passed_out_session_completes', None),
  (E, 'ex_played_model_is_the_real_run', 'C09_example_model_is_the_real_run', None),
 ])
-m.write('C13', 'An aborted session still leaves a well-formed log of the completed boards.', IMP.replace('Proofs.SessionExamples.', 'Proofs.SessionExamples Model.Conform Proofs.SessionConform Proofs.SessionPassOut Proofs.Wire Model.Json Gen.JsonFraming Proofs.C13Cor Proofs.SessionAbort.'), '''(* FULL STATEMENT, PROVED (Proofs/SessionAbort.v) for sessions whose clients connect in the order N, E, S, W: if the clients
+m.write('C13', 'An aborted session still leaves a well-formed log of the completed boards.', IMP.replace('Proofs.SessionExamples.', 'Proofs.SessionExamples Model.Conform Proofs.SessionConform Proofs.SessionPassOut Proofs.Wire Model.Json Gen.JsonFraming Proofs.C13Cor Proofs.SessionAbort Proofs.SessionAdmission Proofs.SessionArrivals Proofs.SessionAbortArrivals.'), '''(* FULL STATEMENT, PROVED (Proofs/SessionAbort.v for clients connecting in the order N, E, S, W; Proofs/SessionAbortArrivals.v for EVERY
+   request list that fills the table, by the network embedding of Proofs/KahnEmbed.v): if the seated clients
    conform on the first a boards and board a+1 goes wrong at ANY position - a call text that does not parse, a call that parses
    but is illegal, a card text that does not parse, a card the table refuses - by whichever seat is on turn, then some schedule
    makes the main thread raise, no schedule can avoid it, every schedule is bounded, and whenever the main thread has ended (or
@@ -50,6 +51,9 @@ m.write('C13', 'An aborted session still leaves a well-formed log of the complet
  ('Proofs/C13Cor.v', 'aborted_log_parses', 'C13_aborted_log_parses', 'and such a file - written with the literals regenerated from writer.py - is one JSON document whose records are exactly those'),
  ('Proofs/SessionAbort.v', 'abandoned_session_log', 'C13_abandoned_session_log', 'FULL, symbolic and unbounded: any abort point (board, position, seat) and each kind of offending action'),
  ('Proofs/SessionAbort.v', 'abandoned_session_bounded', 'C13_abandoned_session_bounded', 'one final state, every schedule bounded, every maximal schedule ends in it'),
+ ('Proofs/SessionAbortArrivals.v', 'abandoned_session_any_arrivals', 'C13_abandoned_session_any_arrivals', 'the same for EVERY request list that fills the table (any order, refusals in between, late requests)'),
+ ('Proofs/SessionAbortArrivals.v', 'abandoned_session_any_arrivals_bounded', 'C13_abandoned_session_any_arrivals_bounded', None),
+ ('Proofs/SessionAbortArrivals.v', 'abandoned_session_any_arrivals_interrupted', 'C13_abandoned_and_interrupted_any_arrivals', None),
  ('Proofs/SessionAbort.v', 'interrupted_session_log', 'C13_interrupted_session_log', 'operator interrupt at any step of the main thread: the file holds a prefix of the records'),
  ('Proofs/SessionAbort.v', 'interrupted_session_every_schedule', 'C13_interrupted_session_every_schedule', None),
  ('Proofs/SessionAbort.v', 'abandoned_session_interrupted', 'C13_abandoned_and_interrupted', None),
